@@ -674,3 +674,96 @@ def gen_store_program(rng, malformed_p=0.3):
         else:
             ops.append(("world", rng.choice([0, 1, 2]), w()))
     return {"kb": desc, "ops": ops}
+
+
+# ------------------------------------------------------------------ C02: ground-instance oracle
+
+def run_c02(case):
+    """first-order inference vs exhaustive propagation over the ground instances, both executed by the
+    implementation. case: {'kb', 'facts', 'n_consts', 'ops'}"""
+    import itertools
+    import impl
+    L = impl.lnn()
+    rec = run_fol_program({"kb": case["kb"], "facts": case["facts"], "ops": case["ops"],
+                           "fact_shuffle_seed": case.get("fact_shuffle_seed")})
+    kb = FolKB(case["kb"])          # a second, untouched copy only to read structure (operand maps, parameters)
+    nc = case["n_consts"]
+    # ---- ground propositional KB
+    G = {}          # (formula id, grounding tuple) -> lnn object
+    model = L.Model()
+    facts = {(f[0], tuple(f[1])): (f[2], f[3]) for f in case["facts"]}
+    data = {}
+    acts = {"Lukasiewicz": L.NeuralActivation.Lukasiewicz, "LukasiewiczTransparent": L.NeuralActivation.LukasiewiczTransparent}
+    for i in kb.order:
+        o = kb.obj[i]
+        cn = type(o).__name__
+        if cn == "Predicate":
+            for g in itertools.product(range(nc), repeat=o.arity):
+                p = L.Proposition(f"P{i}_" + "_".join(map(str, g)))
+                G[(i, g)] = p
+                b = facts.get((i, g))
+                if b is None:
+                    b = tuple(Fr(float(x)) for x in o.world)
+                data[p] = (float(b[0]), float(b[1]))
+        elif cn == "Not":
+            j = kb.idof[id(o.operands[0])]
+            ar = o.operands[0].num_unique_vars
+            for g in itertools.product(range(nc), repeat=ar):
+                G[(i, g)] = L.Not(G[(j, g)])
+        elif cn in ("And", "Or", "Implies"):
+            nv = o.num_unique_vars
+            act = {"type": acts[type(o.neuron).__name__], "alpha": float(o.neuron.alpha),
+                   "bias": float(o.neuron.bias), "weights": tuple(float(w) for w in o.neuron.weights.detach().tolist())}
+            for g in itertools.product(range(nc), repeat=nv):
+                ops = []
+                for k, x in enumerate(o.operands):
+                    j = kb.idof[id(x)]
+                    ops.append(G[(j, tuple(g[s] for s in o.operand_map[k]))])
+                cls = {"And": L.And, "Or": L.Or, "Implies": L.Implies}[cn]
+                c = cls(*ops, activation=dict(act))
+                G[(i, g)] = c
+                w = tuple(Fr(float(x)) for x in o.world)
+                if w != (ZERO, ONE):
+                    data[c] = (float(w[0]), float(w[1]))
+        else:
+            raise ValueError(cn)
+    roots = [G[k] for k in G if k[0] in case["kb"]["roots"]]
+    model.add_knowledge(*roots)
+    model.add_data({k: v for k, v in data.items() if k in model})
+    gsteps, _ = model.infer(max_steps=300)
+    ground = {}
+    for (i, g), o in G.items():
+        if o in model:
+            ground[f"{i}:{gtxt(g)}"] = [q(x) for x in impl.bounds_of(o)]
+    rec["meta"]["ground"] = ground
+    rec["meta"]["ground_contra"] = bool(model.has_contradiction())
+    rec["meta"]["ground_steps"] = gsteps
+    rec["meta"]["ground_size"] = len(G)
+    return rec
+
+
+def gen_c02_case(rng, interp=True):
+    desc = gen_fol_kb(rng, n_preds=(2, 3), n_conn=(1, 3), max_arity=2, quant=False, worlds=True, weighted=True)
+    for n in desc["nodes"]:
+        n.pop("world", None)            # connective worlds stay OPEN: the drawn interpretation need not satisfy them
+    nc = rng.randint(2, 3)
+    import itertools
+    facts = []
+    for p in desc["preds"]:
+        for g in itertools.product(range(nc), repeat=p["arity"]):
+            w = p.get("world", "open")
+            v = grid(rng)
+            if interp:
+                if rng.random() < 0.6:
+                    lo = Fr(rng.randint(0, int(v * 8)), 8) if rng.random() < 0.7 else ZERO
+                    hi = Fr(rng.randint(-(-v * 8 // 1), 8), 8) if rng.random() < 0.7 else ONE
+                    if rng.random() < 0.4:
+                        lo, hi = rng.choice([(ONE, ONE), (ZERO, ZERO), (ZERO, ONE)])
+                    facts.append((p["id"], list(g), lo, hi))
+                # an unasserted atom keeps the world default, which is a consistent reading by itself
+            else:
+                if rng.random() < 0.6:
+                    lo, hi = rand_bounds(rng, 0.5, 0.0)
+                    facts.append((p["id"], list(g), lo, hi))
+    ops = [("infer", 60)]
+    return {"kb": desc, "facts": facts, "n_consts": nc, "ops": ops}
